@@ -174,12 +174,45 @@ def var_ids(c, what, got, want):
         c.text('%s[%d].original_name' % (what, j), g.original_name, w.original_name)
 
 
+def value_matches(c, got, v):
+    """got = any_value(...) of the message; v = the python value. Text that UTF-8 cannot carry may arrive with a
+    placeholder, an integer protobuf's 64 bits cannot hold may arrive as its decimal text, None inside a sequence as an
+    unset value - but the entry has to arrive."""
+    if isinstance(v, str) and not isinstance(v, bool):
+        if got[0] != 'string_value':
+            return False
+        probe = Cmp()
+        probe.text('x', got[1], v)
+        return not probe.problems
+    if isinstance(v, int) and not isinstance(v, bool) and not (-2 ** 63 <= v < 2 ** 63):
+        return got in (('string_value', str(v)), ('double_value', float(v)))
+    if v is None:
+        return got[0] == 'unset'
+    if isinstance(v, (list, tuple)):
+        return got[0] == 'array' and len(got[1]) == len(v) and all(value_matches(c, g_, v_) for g_, v_ in zip(got[1], v))
+    return got == expect_value(v)
+
+
 def kv(c, what, got, want):
-    g = {x.key: any_value(x.value) for x in got}
-    c.eq('%s keys' % what, sorted(g), sorted(want))
+    g = {}
+    for x in got:
+        g[x.key] = any_value(x.value)
+    want_keys = {}
     for k, v in want.items():
-        if k in g:
-            c.eq('%s[%s]' % (what, k), g[k], expect_value(v))
+        want_keys[k] = v
+    c.fields += 1
+    if len(g) != len(want_keys) and len(c.problems) < 8:
+        c.problems.append(('wire:field-changed', '%s: %d entries sent, %d collected' % (what, len(g), len(want_keys))))
+    for k, v in want.items():
+        probe = Cmp()
+        hit = [gk for gk in g if gk == k or (SURR.search(k) and not probe.text('k', gk, k) and not probe.problems)]
+        c.fields += 1
+        if not hit:
+            if len(c.problems) < 8:
+                c.problems.append(('wire:field-changed', '%s[%s] was collected but not sent' % (what, _s(k))))
+            continue
+        if not value_matches(c, g[hit[0]], v) and len(c.problems) < 8:
+            c.problems.append(('wire:field-changed', '%s[%s]: sent %r, collected %r' % (what, _s(k), _s(g[hit[0]]), _s(v))))
 
 
 def check_message(snap, out, witness, replay, via_channel=None):
@@ -272,15 +305,15 @@ def synth(r):
     frames = []
     for i in range(r.pick([0, 1, 2, 6])):
         vids = [VariableId(str(r.randrange(1, max(2, nvars + 1))), gen_text(r, False)) for _ in range(r.randrange(0, 4))]
-        frames.append(StackFrame('/app/%s.py' % gen_text(r, False)[:10], r.pick(['/s.py', '']), gen_text(r, False),
-                                 r.randrange(0, 5000), vids, r.pick([None, 'Cls', 'Ünï']),
+        frames.append(StackFrame('/app/%s.py' % gen_text(r)[:10], r.pick(['/s.py', '', '\udcfe/s.py']), gen_text(r),
+                                 r.randrange(0, 5000), vids, r.pick([None, 'Cls', 'Ünï', 'C\udc80']),
                                  is_async=r.chance(0.2), column_number=r.pick([0, 0, 7]),
                                  transpiled_file_name=r.pick([None, None, 't.ts']),
                                  transpiled_line_number=r.pick([0, 3]), app_frame=r.chance(0.5)))
     args = {gen_text(r, False)[:8] or 'k': gen_text(r, False) for _ in range(r.randrange(0, 3))}
     tp = TracePointConfig('tp-' + gen_text(r, False)[:6], r.pick(['f.py', 'dir/ünï.py']), r.pick([1, 42, 0, -1]), args,
                           [gen_text(r, False) for _ in range(r.randrange(0, 3))], [])
-    res_attrs = {'service.name': gen_text(r, False) or 's', 'n': r.randrange(100), 'f': 1.5, 'b': r.chance(0.5)}
+    res_attrs = {'service.name': gen_text(r) or 's', 'n': r.pick([r.randrange(100), 2 ** 65]), 'f': 1.5, 'b': r.chance(0.5)}
     if r.chance(0.4):
         res_attrs['seq'] = r.pick([['a', 'b'], (1, 2, 3), [True, False], [1.5]])
         flags.add('sequence')
@@ -297,7 +330,11 @@ def synth(r):
     for _ in range(r.randrange(0, 5)):
         key = r.pick(['context', 'tracepoint', 'thread_name', 'k1', 'ünï'])
         val = r.pick([gen_text(r, False), r.randrange(-2 ** 62, 2 ** 62), True, 2.5, b'raw-bytes', ['x', 'y'], (1, 2),
-                      [0.5, 1.5], [True], HttpStatus.NOT_FOUND, HttpStatus.OK, False, 0])
+                      [0.5, 1.5], [True], HttpStatus.NOT_FOUND, HttpStatus.OK, False, 0,
+                      # values the attribute container accepts and the wire format has no direct place for
+                      gen_text(r), ('a', None, 'b'), 2 ** 64, -2 ** 70, [gen_text(r), 'z']])
+        if isinstance(val, str) and SURR.search(val):
+            flags.add('surrogate')
         if isinstance(val, (list, tuple)):
             flags.add('sequence')
         snap.attributes[key] = val
